@@ -3,7 +3,9 @@
 The computed strings/numbers themselves are run-time values of std / dependency primitives and are NOT claimed.  Decided:
   R-C18-dispatch     for each of the 15 documented functions the four tables agree: name accepted by the parser <-> variant,
                      variant -> printed name (round trip), arity (docs/FUNCTIONS.md), variant -> implementation -> the expected
-                     primitive (to_upper really calls str::to_uppercase, parse_int really parses an i64, ...)
+                     primitive (to_upper really calls str::to_uppercase, parse_int really parses an i64, ...); resolve_function returns Ok
+                     only with what the function's call produced (no shortcut for empty selections); numbers change type in the
+                     converters through the `as` cast alone (no floor / round / abs beside it)
   R-C18-elementwise  every element-wise function pushes exactly one result per input element on every non-error path;
                      unresolved entries and values of unsupported kinds give None (skipped), never a made-up value
   R-C18-parse-errors a failing parse in parse_int / parse_float / parse_boolean / parse_char / parse_epoch / json_parse returns an error,
@@ -443,6 +445,68 @@ def value_paths(ctx, cr):
     ctx.ob(rule, rule + ":value-path:substring-offsets", not bad, "; ".join(sorted(set(bad))[:3]) or "both offsets: number -> u16 -> usize", fn=f)
 
 
+def converter_casts(ctx, cr):
+    """parse_int of a float TRUNCATES (documented: "floats are truncated"), parse_float of an int is the exact conversion: inside the
+    converter functions numbers change type through the `as` cast alone; a rounding call on the way (floor, ceil, round, abs ...) is a
+    different function for negative or fractional inputs (`trunc` is what the cast already does and is accepted)."""
+    rule = "R-C18-dispatch"
+    ROUND = ("floor", "ceil", "round", "round_ties_even", "abs", "signum", "rem_euclid", "div_euclid", "clamp", "max", "min", "fract", "mul_add", "powi", "to_int_unchecked",
+             "saturating_sub", "saturating_add", "wrapping_add", "wrapping_sub", "unsigned_abs")
+    keys = sorted(k for k, f in cr.fns.items() if k.startswith("rules::functions::converters::") and not f.get("file", "").endswith("_tests.rs") and "::tests::" not in k)
+    casts, hits = 0, []
+    for k in keys:
+        f = cr.fns[k]
+        for bi, si, st in M.iter_stmts(f):
+            rv = st.get("rv")
+            if rv and rv["r"] == "cast" and rv.get("ck") in ("FloatToInt", "IntToFloat"):
+                casts += 1
+        for bi, t in M.iter_calls(f):
+            p = M.norm_path(t["fn"].get("path", ""))
+            if p.split("::")[-1] in ROUND and (p.startswith("std::f64") or p.startswith("core::f64") or p.startswith("std::f32") or "f64" in p or "i64" in p or "num::" in p):
+                hits.append("%s in %s (l.%s)" % (p, k.split("::")[-1], t.get("ln")))
+    ctx.ob(rule, rule + ":value-path:converter-casts", casts >= 2 and len(keys) >= 5 and not hits,
+           ("the converters apply %s before the cast: parse_int of a negative fractional number (-1.5) is no longer its truncation (-1)" % hits) if hits
+           else "%d converter functions, %d float<->int casts, no rounding call beside them" % (len(keys), casts))
+
+
+def always_called(ctx, cr):
+    """a function call in a rules file is always dispatched to the function: resolve_function returns Ok only with what `name.call(&args)`
+    produced.  A shortcut for "nothing selected" returns no value at all where count() yields 0 and join() yields the empty string."""
+    rule = "R-C18-dispatch"
+    key = "rules::eval_context::resolve_function"
+    f = cr.fns.get(key)
+    if not f:
+        ctx.lost(rule, rule + ":always-called", key)
+        return
+    outs = []
+
+    class H(ai.Hooks):
+        def inline(self, a, st, k, fn):
+            return k.startswith(key + "::{closure")
+
+        def call(self, a, st, term, callee, args):
+            p = M.norm_path(callee.get("path", ""))
+            decl = M.norm_path(callee.get("decl", ""))
+            mon = st.mon or Mon()
+            if (decl.endswith("Callable::call") or p.endswith("FunctionName::call") or decl.endswith("FunctionName::call")) and st.top is st.frames[0]:
+                return [(("enum", ai.RESULT, 0, (a.sym(st, a.site(st, ":values")),)), mon.set(called=True)), (("enum", ai.RESULT, 1, (("sym", "CALL_ERR"),)), mon.set(called=True))]
+            return None
+
+        def ret(self, a, st, v):
+            outs.append((v, (st.mon or Mon()).get("called"), S.trace_str(st.trace, 4)))
+    a = ai.AI(cr, H())
+    try:
+        a.run(key, mon=Mon())
+    except ai.Undecided as e:
+        ctx.ob(rule, rule + ":always-called", False, "undecided %s" % e, fn=f)
+        return
+    ctx.states += a.n_states
+    oks = [(c, tr) for v, c, tr in outs if v[0] == "enum" and v[1] == ai.RESULT and v[2] == 0]
+    bad = [tr for c, tr in oks if not c]
+    ctx.ob(rule, rule + ":always-called", bool(oks) and not bad, ("resolve_function returns Ok without calling the function [%s]: count / join over an empty selection yield no value instead of 0 / \"\"" % bad[0]) if bad
+           else "%d Ok paths, all through FunctionName::call" % len(oks), fn=f)
+
+
 def per_element_state(ctx, cr):
     """element-wise functions compute each element from that element alone: a buffer that is written inside the per-element loop and
     ends up in the element's result is created inside the loop (a buffer hoisted out of the loop and not cleared makes result k depend
@@ -572,6 +636,8 @@ def run(ctx):
     count_rule(ctx, cr)
     join_shape(ctx, cr)
     value_paths(ctx, cr)
+    converter_casts(ctx, cr)
+    always_called(ctx, cr)
     per_element_state(ctx, cr)
     ctx.assumptions += [
         "the values computed by str::to_uppercase, str::parse, urlencoding::decode, serde_json, chrono, fancy_regex are those primitives' (not analysed)",
